@@ -295,7 +295,19 @@ def _no_return(form: str, target: T.Any, at: ast.AST) -> list[ast.stmt]:
     return []
 
 
-def _expand(call: ast.Call, form: str, target: T.Any, helper: T.Any, receiver: ast.expr | None, serial: int, caller_names: T.Container[str] = frozenset()) -> list[ast.stmt] | None:
+def _observed(fn: T.Any, stmt: ast.stmt, var: str) -> bool:
+    """Is `var` read by an exception handler or finally clause that encloses `stmt`?  Then the moment at which the caller's
+    variable is bound (only when the helper RETURNS) is observable, and the helper's local must stay a different variable."""
+    for t in ast.walk(fn):
+        if isinstance(t, ast.Try) and any(stmt is x for b in t.body for x in ast.walk(b)):
+            for blk in [h.body for h in t.handlers] + [t.finalbody]:
+                if any(isinstance(n, ast.Name) and n.id == var for st in blk for n in ast.walk(st)):
+                    return True
+    return False
+
+
+def _expand(call: ast.Call, form: str, target: T.Any, helper: T.Any, receiver: ast.expr | None, serial: int, caller_names: T.Container[str] = frozenset(),
+            observed: bool = False) -> list[ast.stmt] | None:
     bound = _bind(call, helper, receiver)
     if bound is None:
         return None
@@ -312,7 +324,7 @@ def _expand(call: ast.Call, form: str, target: T.Any, helper: T.Any, receiver: a
             rename[p] = tmp
             pre.append(ast.copy_location(ast.Assign(targets=[ast.Name(id=tmp, ctx=ast.Store())], value=_clone(a)), call))
     returned = {r.value.id for r in ast.walk(helper) if isinstance(r, ast.Return) and isinstance(r.value, ast.Name)}
-    same_var = target.id if form == "assign" and isinstance(target, ast.Name) and target.id in returned else None
+    same_var = target.id if form == "assign" and isinstance(target, ast.Name) and target.id in returned and not observed else None
     for v in assigned:
         if v not in bound and v in caller_names and v != same_var:
             rename[v] = f"{v}__{helper.name.strip('_')}{serial}"
@@ -398,7 +410,8 @@ def inline_new_helpers(tree: ast.Module, known_functions: set[str]) -> list[str]
                         is_async_call = isinstance(getattr(blk[i], "value", getattr(blk[i], "exc", None)), ast.Await)
                         if isinstance(helper, ast.AsyncFunctionDef) == is_async_call:
                             counter[0] += 1
-                            out = _expand(c[0], c[1], c[2], helper, ref[1], counter[0], caller_names)
+                            obs = isinstance(c[2], ast.Name) and _observed(f, blk[i], c[2].id)
+                            out = _expand(c[0], c[1], c[2], helper, ref[1], counter[0], caller_names, obs)
                             if out is not None:
                                 blk[i:i + 1] = out
                                 done += 1
